@@ -70,6 +70,8 @@ GoodRun(kind, o, c, bytes, r) ==
   /\ (kind \in {"wk.key", "wk.params"} => r.rep = SlotCount(kind, o) /\ r.rep2 = r.rep)
   /\ Abs(kind, r.obj) = AbsIn(kind, o)
   /\ r.relen = Len(bytes) /\ r.again = bytes
+  \* one object reused: other parameters first, then a rejected load of a damaged copy, then these bytes
+  /\ ("route3" \in DOMAIN r => r.route3.fault = 0 /\ r.route3.ok = 1 /\ Abs(kind, r.route3.obj) = AbsIn(kind, o))
   \* the second documented route (static unmarshalled_length, count stored by hand, target object with a stale signature-support flag)
   /\ ("route2" \in DOMAIN r => /\ r.route2.fault = 0 /\ r.route2.ok = 1 /\ Abs(kind, r.route2.obj) = AbsIn(kind, o)
                                /\ r.route2.relen = Len(bytes) /\ r.route2.again = bytes)
